@@ -20,6 +20,7 @@ pub fn spec() -> PropSpec {
         assumptions: &["a junk line containing invalid UTF-8 never carries an accepted hex-digit count (C02 and C13 would otherwise pull in opposite directions)", "elapsed time plays no role: delete_after is large"],
         workers: 16,
         also_nochk: false,
+        fuzz_target: Some("fz_stream"),
         quick_budget_s: 900,
         thorough_budget_s: 3600,
         min_nontrivial_quick: 2_000,
@@ -142,6 +143,7 @@ fn check_cli(m: &Mixed) -> Result<(), String> {
 }
 
 fn run(c: &mut Ctx) {
+    super::replay_fuzz_corpus(c, "fz_stream", &["C13", "C01"]);
     let rec = std::sync::Arc::new(rec_lines());
     let cases = c.tier.pick(12_000, 300_000);
     let r = c.proptest(cases, mixed_strategy(rec.clone()), |c, m, counting| {
@@ -189,10 +191,51 @@ fn run(c: &mut Ctx) {
     });
     if let Some((m, msg)) = r {
         c.fail(msg, "c13:cli", json!({"kind":"mixed","m":m,"cli":true}));
+        return;
+    }
+    tcp_subcheck(c);
+}
+
+fn tcp_subcheck(c: &mut Ctx) {
+    // junk lines (incl. invalid UTF-8) followed by frames on one TCP connection, then a healthy reconnect
+    use super::c18::{check, Fault, Outcome};
+    for (i, seq) in [vec![Fault::JunkThenFrames], vec![Fault::JunkThenFrames, Fault::JunkThenFrames], vec![Fault::FramesClose, Fault::JunkThenFrames]].iter().enumerate() {
+        if !c.mine(i as u64) {
+            continue;
+        }
+        c.eval(1);
+        c.class("tcp_junk_then_frames");
+        match check(seq, 9000 + i as u64) {
+            Ok(Outcome::Ok { .. }) => c.nontrivial(&("tcp", i)),
+            Ok(Outcome::Inconclusive(m)) => c.inconclusive(&m),
+            Err(m) => {
+                if m.starts_with("harness:") || m.starts_with("cannot start") {
+                    c.inconclusive(&m);
+                } else if !c.failed() {
+                    c.fail(m, "c13:tcp", json!({"kind":"tcp","faults":seq}));
+                }
+            }
+        }
     }
 }
 
 fn replay(c: &mut Ctx, case: &Value) {
+    if let Some(r) = super::replay_fuzz_case(case) {
+        c.eval(1);
+        if let Err((p, m)) = r {
+            c.fail(format!("[{}] {}", p, m), "fuzz:artifact", case.clone());
+        }
+        return;
+    }
+    if case["kind"].as_str() == Some("tcp") {
+        c.eval(1);
+        if let Ok(seq) = serde_json::from_value::<Vec<super::c18::Fault>>(case["faults"].clone()) {
+            if let Err(m) = super::c18::check(&seq, 9100) {
+                c.fail(m, "c13:tcp", case.clone());
+            }
+        }
+        return;
+    }
     c.eval(1);
     let Ok(m) = serde_json::from_value::<Mixed>(case["m"].clone()) else { return c.inconclusive("bad replay") };
     let r = if case["cli"].as_bool().unwrap_or(false) { check_cli(&m) } else { check(&m) };
